@@ -100,6 +100,10 @@ class CaseGen:
         nd = VND[var]
         api = rng.choice(['a', 'a', 's', 'm', 'n']) if nd > 0 else 'a'
         mt = 0 if rng.chance(3, 5) else rng.choice([1, 2, 3, 4, 6])
+        if kind == 'get' and self.allow_read_overlap:
+            # an overlapped read buffer stays unfilled (known finding F13); converting that garbage would make the
+            # return code unpredictable (NC_ERANGE or not), so reads that may overlap use the native type
+            mt = 0
         bl = rng.choice([0, 0, 1, 2, 3])
         if bl == 1 and mt != 0:
             bl = 0
@@ -193,7 +197,8 @@ class CaseGen:
         if with_stride:
             toks += list(subs[0][2])
         self.lines.append(' '.join(str(t) for t in toks))
-        info = dict(h=h, kind=kind, var=var, erange=erange, el=set(allel), zero=zero, api=api, nsubs=nsubs, maxrec=maxrec)
+        info = dict(h=h, kind=kind, var=var, erange=erange, el=set(allel), zero=zero, api=api, nsubs=nsubs, maxrec=maxrec,
+                    selfoverl=(len(set(allel)) != len(allel)))
         self.meta.append(dict(op='P', rank=rank, info=info))
         if zero == 0:
             self.pending[rank][h] = info
@@ -259,12 +264,7 @@ class CaseGen:
             self.lines.append('W %d %s %d %d %d %d %s %d %s' % (rank, mode, num, hasst, expn, len(toks), ' '.join(toks),
                                                                len(exp), ' '.join(str(h) for h in exp)))
         # overlapping gets completed together (F13 trigger)
-        gets = [h for h in exp if self.pending[rank][h]['kind'] == 'get']
-        overl = set()
-        for i, a in enumerate(gets):
-            for b in gets[i + 1:]:
-                if self.pending[rank][a]['el'] & self.pending[rank][b]['el']:
-                    overl.add(a); overl.add(b)
+        overl = set(self._overl(rank, exp))
         if not cancel:
             for h in exp:
                 if self.pending[rank][h]['kind'] != 'get':
@@ -328,7 +328,7 @@ class CaseGen:
 
     def _overl(self, rank, hs):
         gets = [h for h in hs if self.pending[rank][h]['kind'] == 'get']
-        o = set()
+        o = set(h for h in gets if self.pending[rank][h].get('selfoverl'))   # overlapping sub-requests of one varn
         for i, a in enumerate(gets):
             for b in gets[i + 1:]:
                 if self.pending[rank][a]['el'] & self.pending[rank][b]['el']:
@@ -497,8 +497,13 @@ def judge_case(lines_out, metas):
                 if st != want:
                     if m['shortcut'] and sorted(st) == sorted(want):
                         return ('extract-shortcut-status-by-position', '%s expected st=%s' % (line.split(' | ')[0], want))
+                    if m['overl'] and len(st) == len(want) and all(a == b or (a == -60 and b == 0) for a, b in zip(st, want)):
+                        # an overlapped read buffer stays unfilled (F13); converting the garbage may raise NC_ERANGE
+                        return ('overlapping-iget-unfilled', '%s expected st=%s (NC_ERANGE from an unfilled overlapped read)' % (line.split(' | ')[0], want))
                     return ('wait-status', '%s expected st=%s' % (line.split(' | ')[0], want))
         if err != want_err:
+            if m['overl'] and err == -60:
+                return ('overlapping-iget-unfilled', '%s expected err=%d (NC_ERANGE from an unfilled overlapped read)' % (line.split(' | ')[0], want_err))
             return ('wait-return-code', '%s expected err=%d' % (line.split(' | ')[0], want_err))
         nrec = numrecs_of(line)
         if m.get('numrecs') is not None and nrec is not None and nrec != m['numrecs']:
